@@ -745,10 +745,8 @@ impl<S: KSub> System for KSys<S> {
                 v.push(sub.get(t, key).map(|x| x as u64).unwrap_or(u64::MAX));
             }
             v.push(sub.is_empty() as u64);
-            if let KSnap::List(l, m) = sub.snap() {
-                v.push(m as u64);
-                v.push(l.len() as u64);
-            }
+            // observable results only: the cached earliest expiration and the physical length of the list are
+            // internals (C12 asks for observational identity with a new collection, not for equal fields)
             v
         });
         o.sub = Some(sub);
